@@ -525,4 +525,15 @@ def r_shared_r9(ctx):
 
 EXPLANATION = EXPLANATION + ' (R9) a queued message reaches the peer as it was written, with its own type, number and bytes (shared C09.R1, C09.R2): a message decoded under another type or number is not delivered.'
 
-RULES = [("C05.R6", r6), ("C05.R1", r1), ("C05.R2", r2), ("C05.R3", r3), ("C05.R4", r4), ("C05.R5", r5), ("C05.R7", r7), ("C05.R8", r8), ("C05.R9", r_shared_r9)]
+def r_shared_r10(ctx):
+    """a retransmission carries the number the message was first sent under (shared C04.R3): re-sent under a number the peer has
+    already recorded, the one copy that could still deliver the message is dropped as a duplicate and the sender's queues empty"""
+    from . import c04 as _m
+    from .c02 import _Sub
+    _m.r3(_Sub(ctx, "C05.R10"))
+
+
+EXPLANATION = EXPLANATION + (' (R10) every retransmission carries the message number first used, per fragment in fragment order (shared C04.R3): a copy re-sent '
+                             'under a number the peer has already recorded is dropped there as a duplicate, its datagram is acknowledged, and the message is never delivered.')
+
+RULES = [("C05.R6", r6), ("C05.R1", r1), ("C05.R2", r2), ("C05.R3", r3), ("C05.R4", r4), ("C05.R5", r5), ("C05.R7", r7), ("C05.R8", r8), ("C05.R9", r_shared_r9), ("C05.R10", r_shared_r10)]
